@@ -56,6 +56,11 @@ def jobs(tier):
             J.append(Job(b, "two_readers", "2,1,0,0", p1, env, workers=16))
             J.append(Job(b, "merged", "2,1,0,0", p1, env, workers=16))
             J.append(Job(b, "merged", "3,0,0,0", p1, env, workers=16))
+    # membarrier(2) offering only the SHARED command: the library must fall back to the slave barriers
+    p1 = {"qs_attempts": 1, "wait_attempts": 1, "yield_in_section": 1}
+    for b in ("gp_memb", "gp_bp"):
+        J.append(Job(b, "basic", "2,1,0,0", p1, {"VRT_MEMBARRIER": 1}))
+        J.append(Job(b, "nested", "2,1,0,0", p1, {"VRT_MEMBARRIER": 1}))
     return J
 
 
